@@ -927,9 +927,12 @@ theorem lodExt_lt (l : ALod) (h : ∀ x ∈ l.meshes, meshExt x < 4294967280) :
 /-- `update_headers` returns on every record whose stripped tables are those of a `Fits` state -/
 theorem updateHeaders_returns (b : AbstractModel) (m : MDL) (h3 : b.lods.length = 3)
     (hmd : stripMD m.modelData = stripMD (modelData b))
-    (hfh : stripFH m.fileHeader = stripFH (fileHeader b)) (hpl : m.lods.length ≤ 3)
+    (hfh : stripFH m.fileHeader = stripFH (fileHeader b))
+    (hpe : m.lods.length = min b.lodCount.toNat 3)
     (hfit : Fits b = true) : ∃ m', updateHeaders m = .ok m' := by
   have FF := fits_facts b hfit
+  have hlc : m.lods.length = b.lodCount.toNat := by have := FF.lc3; omega
+  have hpl : m.lods.length ≤ 3 := by have := FF.lc3; omega
   have hnM := FF.nMesh
   have hnS := FF.nSub
   have hL : m.modelData.lods.map stripLod = (modelData b).lods.map stripLod :=
@@ -942,7 +945,6 @@ theorem updateHeaders_returns (b : AbstractModel) (m : MDL) (h3 : b.lods.length 
     (congrArg ModelData.submeshes hmd :)
   have hTlen := length_flatSubs (allMeshes b)
   rw [← hT] at hTlen
-  have hlc : m.fileHeader.lodCount = b.lodCount := (congrArg FileHeader.lodCount hfh :)
   have hvdc : m.fileHeader.vertexDeclarationCount = (allMeshes b).length.toUInt16 :=
     (congrArg FileHeader.vertexDeclarationCount hfh :)
   have hlen3 : m.modelData.lods.length = 3 := by
@@ -978,8 +980,8 @@ theorem updateHeaders_returns (b : AbstractModel) (m : MDL) (h3 : b.lods.length 
       omega
   have htot := FF.total
   -- first loop
-  have hn3 : m.fileHeader.lodCount.toNat ≤ 3 := by rw [hlc]; exact FF.lc3
-  obtain ⟨out, hout⟩ := updateMeshOffsets_ok m.modelData m.fileHeader.lodCount.toNat
+  have hn3 : m.lods.length ≤ 3 := by rw [hlc]; exact FF.lc3
+  obtain ⟨out, hout⟩ := updateMeshOffsets_ok m.modelData m.lods.length
     (by rw [hlen3]; exact hn3)
     (fun i hi => by
       obtain ⟨row, _, hat, _, _, h16, _⟩ := rows _ hM i _ (hget i (by omega))
@@ -1004,7 +1006,7 @@ theorem updateHeaders_returns (b : AbstractModel) (m : MDL) (h3 : b.lods.length 
   obtain ⟨hstrip, hstarted⟩ := updateMeshOffsets_strip hout
   have hout' : out.map stripMesh = sRows 0 (allMeshes b) := hstrip.trans hM
   -- the mesh ranges of the LODs in use are disjoint
-  have hRD : RangesDisjoint m.modelData.lods m.fileHeader.lodCount.toNat := by
+  have hRD : RangesDisjoint m.modelData.lods m.lods.length := by
     intro i hi k hk
     obtain ⟨ri, _, hati, hmii, _, _⟩ := lod_row_facts b hnM _ hL i _ (hget i (by omega))
     obtain ⟨rk, _, hatk, hmik, hmck, _⟩ := lod_row_facts b hnM _ hL k _ (hget k (by omega))
@@ -1113,6 +1115,12 @@ theorem rep_parts_le {a : AbstractModel} {m : MDL} (hrep : Rep a m) (h3 : a.lods
   rw [List.length_map, length_specKeys] at this
   omega
 
+theorem rep_parts_min {a : AbstractModel} {m : MDL} (hrep : Rep a m) (h3 : a.lods.length = 3) :
+    m.lods.length = min a.lodCount.toNat 3 := by
+  have := congrArg List.length hrep.parts
+  rw [List.length_map, length_specKeys] at this
+  omega
+
 /-- the part an edit addresses, with its key -/
 theorem rep_part {a : AbstractModel} {m : MDL} (hrep : Rep a m) {lod part : Nat} {l : ALod}
     {mesh : AMesh} (hl : a.lods[lod]? = some l) (hmesh : l.meshes[part]? = some mesh)
@@ -1162,8 +1170,8 @@ theorem removeShapes_returns (a : AbstractModel) (m : MDL) (h3 : a.lods.length =
   refine updateHeaders_returns _ _ ?_ ?_ ?_ ?_ hfit
   · exact h3
   rotate_right
-  · show m.lods.length ≤ 3
-    exact rep_parts_le hrep h3
+  · show m.lods.length = min a.lodCount.toNat 3
+    exact rep_parts_min hrep h3
   · have hsh : m.modelData.shapes = shapeRows a := congrArg ModelData.shapes hrep.md
     show ({ stripMD m.modelData with
       shapeMeshes := [], shapeValues := [], shapes := m.modelData.shapes.map clearS } : ModelData) = _
@@ -1319,8 +1327,8 @@ theorem replace_returns (a : AbstractModel) (m : MDL) (lod part : Nat)
   · show (a.lods.set lod _).length = 3
     rw [List.length_set]; exact h3
   rotate_right
-  · show (m.lods.set lod _).length ≤ 3
-    rw [List.length_set]; exact rep_parts_le hrep h3
+  · show (m.lods.set lod _).length = min a.lodCount.toNat 3
+    rw [List.length_set]; exact rep_parts_min hrep h3
   · show ({ stripMD m.modelData with submeshes := tbl, meshes := _ } : ModelData) =
       stripMD (modelDataAt (replModel a lod l part (replMesh mesh vc streams indices subs)) _)
     rw [hrep.md, hrowsS, htbl'']
@@ -1434,7 +1442,7 @@ theorem addTail_returns (a : AbstractModel) (m : MDL) (lod shape smi part : Nat)
       (0 + psum subLen (allMeshes a) (psum meshCountOf a.lods lod + part)).toUInt16 from
       (congrArg Mesh.submeshIndex hrowS :), Nat.zero_add, hsbase]
     exact toUInt16_toNat _ (by omega)
-  have hlcE : m.fileHeader.lodCount = a.lodCount := (congrArg FileHeader.lodCount hrep.fh :)
+  have hlcE : lod < m.lods.length := hrep.lod_lt hl hlc
   obtain ⟨lrow, hlrow, hsr⟩ := rep_lod_row hrep hl
   have hmle := meshBase_le a lod l hl
   have e1 : lodAt m.modelData.lods lod = lrow := by simp [lodAt, hlrow]
@@ -1447,7 +1455,7 @@ theorem addTail_returns (a : AbstractModel) (m : MDL) (lod shape smi part : Nat)
   have hma : meshAt m.modelData.meshes (psum meshCountOf a.lods lod + part) = row := by
     simp [meshAt, hrow0]
   have hstart : row.startIndex = (meshStart l part).toUInt32 := by
-    have h1 := hst lod (by rw [hlcE]; exact hlc) part (by rw [e1, e3]; exact hpart)
+    have h1 := hst lod hlcE part (by rw [e1, e3]; exact hpart)
     rw [e1, e2, hma] at h1
     obtain ⟨s, rest, hs1, hs2⟩ := hsub
     have hget := submeshes_getElem? a lod l hl part mesh hmesh 0 (by rw [hs1]; simp)
@@ -1554,8 +1562,8 @@ theorem addTail_returns (a : AbstractModel) (m : MDL) (lod shape smi part : Nat)
   · show (a.lods.set lod _).length = 3
     rw [List.length_set]; exact h3
   rotate_right
-  · show (m.lods.set lod _).length ≤ 3
-    rw [List.length_set]; exact rep_parts_le hrep h3
+  · show (m.lods.set lod _).length = min a.lodCount.toNat 3
+    rw [List.length_set]; exact rep_parts_min hrep h3
   · rw [stripMD_addModel a lod l part mesh _ _ _ _ hl hmesh hs3 hx3 rfl rfl hnames]
     show ({ stripMD m.modelData with
       shapes := shapes.set shape _
@@ -1733,7 +1741,7 @@ theorem rep_lods_length {a : AbstractModel} {m : MDL} (hrep : Rep a m) :
 `Fits` -/
 theorem edits_return : ∀ (es : List AEdit) (a a' : AbstractModel) (m : MDL) (ces : List Edit),
     Small a → a.lods.length = 3 → Rep a m → StartsFromSubmesh m →
-    RangesDisjoint m.modelData.lods m.fileHeader.lodCount.toNat →
+    RangesDisjoint m.modelData.lods m.lods.length →
     editsOk2 a es = true → editsFit a es = true → applyEdits a es = some a' →
     cedits a es = some ces → ∃ m', ces.foldlM Mdl.applyEdit m = .ok m' := by
   intro es
@@ -1764,10 +1772,10 @@ theorem edits_return : ∀ (es : List AEdit) (a a' : AbstractModel) (m : MDL) (c
             simpa [applyEdits, List.foldlM_cons, h1] using ha
           obtain ⟨m1, hm1⟩ := applyEdit_returns a a1 m e c hs h3 hrep hst hok.1 hef h1 h2 hf1
           obtain ⟨hrep1, hs1⟩ := rep_step2 a a1 m m1 e c hs hrep hst hok.1 h1 h2 hm1
-          obtain ⟨m0, hu, hl0, hf0, _⟩ := applyEdit_update hm1
-          have hst1 : StartsFromSubmesh m1 := updateHeaders_starts hu (by rw [hl0, hf0]; exact hrd)
+          obtain ⟨m0, hu, hl0, _, hp0⟩ := applyEdit_update hm1
+          have hst1 : StartsFromSubmesh m1 := updateHeaders_starts hu (by rw [hl0, hp0]; exact hrd)
           have hfr := (applyEdit_core hm1).2
-          have hrd1 : RangesDisjoint m1.modelData.lods m1.fileHeader.lodCount.toNat :=
+          have hrd1 : RangesDisjoint m1.modelData.lods m1.lods.length :=
             hfr.rangesDisjoint hrd
           have h31 : a1.lods.length = 3 := by
             rw [← rep_lods_length hrep1, hfr.lodsLen, rep_lods_length hrep, h3]
